@@ -766,7 +766,15 @@ func (w *world) keysetStream(r *hlib.Rng) {
 					}
 				case "mem":
 					// the Lean keyset model's view of the written proto keyset vs the re-read handle
-					if kslib.Expressible(mem.Keyset) {
+					withID := false
+					for _, k := range mem.Keyset.GetKey() {
+						if k.GetOutputPrefixType() == tinkpb.OutputPrefixType_WITH_ID_REQUIREMENT {
+							withID = true // the keyset model (C14) does not know this prefix type
+						}
+					}
+					if withID {
+						o.Count("K-handle-line-skipped(WITH_ID_REQUIREMENT)")
+					} else if kslib.Expressible(mem.Keyset) {
 						o.Emit(fmt.Sprintf("K handle %d %s", mem.Keyset.GetPrimaryKeyId(), kslib.KeysTok(mem.Keyset, nil)), kslib.HandleRes(got, nil), true)
 					}
 					if d := sameHandle(h, insecurecleartextkeyset.KeysetHandle(proto.Clone(mem.Keyset).(*tinkpb.Keyset))); d != "" {
